@@ -463,7 +463,7 @@ Fixpoint set_matching (pu : Z) (ty : string) (v : bool) (acts : list (Z * string
 
 (* processTableCell for the cells 1.. of one row *)
 Fixpoint process_cells (acts : list (Z * string)) (c0 : cell) (hdr : list string) (cells : list cell) (bits : list bool)
-  : res (list bool) :=
+  {struct cells} : res (list bool) :=
   match cells, hdr with
   | c :: cells', h :: hdr' =>
       match c with
@@ -611,7 +611,7 @@ Fixpoint all_chars (p : ascii -> bool) (s : string) : bool :=
 Definition is_string_cell (c : cell) : bool := match c with CS _ => true | _ => false end.
 
 (* the cell checks of deriveSolutionsRequestTable for the cells 1.. of one row below the first *)
-Fixpoint summary_cells_ok (hdr : list string) (cells : list cell) : res bool :=
+Fixpoint summary_cells_ok (hdr : list string) (cells : list cell) {struct cells} : res bool :=
   match cells, hdr with
   | c :: cells', h :: hdr' =>
       let ok := if String.eqb h "Solution" || String.eqb h "Summary" then is_string_cell c
@@ -776,6 +776,21 @@ Definition handle (s : state) (r : request) : outcome :=
   | RSubcatchment id =>
       match rq_meth r with MGet => get_subcatchment s id | MPut => put_subcatchment s id r | _ => fail 405 s end
   end.
+
+(* ------------------------------------------------------------------------------------------------ *)
+(** * What the libraries guarantee about the views (boolean, checked on every generated case)          *)
+
+(* tables.baseTable: SetColumnAndRowSize makes every row exactly as wide as the header; encoding/csv never yields
+   a record without fields *)
+Definition table_wf (t : table) : bool :=
+  negb (Nat.eqb (List.length (t_header t)) 0)
+  && forallb (fun r => Nat.eqb (List.length r) (List.length (t_header t))) (t_rows t).
+Definition csv_wf (c : csv_view) : bool := match c with CsvOk t => table_wf t | CsvErr => true | CsvLibPanic => false end.
+Definition toml_returns (t : toml_view) : bool :=
+  match t with TomlLibPanic => false | TomlOk _ MLibPanic => false | _ => true end.
+Definition json_returns (j : json_view) : bool := match j with JsonLibPanic => false | _ => true end.
+(* the library calls made on this request return (do not panic) and the table view has the shape tables build *)
+Definition wf_request (r : request) : bool := csv_wf (rq_csv r) && toml_returns (rq_toml r) && json_returns (rq_json r).
 
 (* a run: stops at the first panic *)
 Fixpoint run (s : state) (rs : list request) : res state :=
